@@ -8,6 +8,7 @@ import (
 	"flag"
 	"os"
 	"runtime"
+	"runtime/debug"
 	"sort"
 	"strconv"
 	"sync"
@@ -62,6 +63,11 @@ func LoadEnv() *Env {
 		e.Workers = 1
 	}
 	Quiet()
+	// the code under check allocates heavily (ResourceList deep copies); with ample memory a lazier GC keeps the
+	// exploration workers from serialising on the collector
+	if os.Getenv("GOGC") == "" {
+		debug.SetGCPercent(400)
+	}
 	return e
 }
 
